@@ -307,6 +307,8 @@ def run_std_cases(ctx: Ctx, n_cases: int, n_values: int, judge: Dict[str, bool])
                     res.inconclusive.append(f"driver returned {len(replies)} replies for {len(reqs)} requests ({config})")
                 for mt, r in zip(meta, replies):
                     judge_std_reply(ctx, mt, r, config, judge, wit)
+                if config == "gcc-O0-sep" and not ctx.quick and case_id % 6 == 0:
+                    memcheck_sample(ctx, sess, reqs[:240], wit)
                 os.unlink(exe)
         finally:
             if mods is not None:
@@ -316,6 +318,34 @@ def run_std_cases(ctx: Ctx, n_cases: int, n_values: int, judge: Dict[str, bool])
             break
     for name, n in contracts.COUNTS.items():
         res.count("contract_evals:" + name, n)
+
+
+def memcheck_sample(ctx: Ctx, sess: "CSession", reqs, wit) -> None:
+    """valgrind memcheck over a sample of the same requests: use of uninitialised storage that reaches the wire, the struct or printf."""
+    import subprocess
+    res = ctx.res
+    cmds = []
+    for op, m, payload in reqs:
+        k = sess.idx(m)
+        if op.upper() in ("E", "J", "R"):
+            cmds.append(f"{op} {k} {sut_c.leaves_hex(payload)}")
+        elif op.upper() == "D":
+            cmds.append(f"{op} {k} {payload.hex()}")
+        else:
+            cmds.append(f"{op} {k}")
+    try:
+        p = subprocess.run(["valgrind", "-q", "--error-exitcode=99", "--track-origins=no", sess.exe], input="\n".join(cmds) + "\nQ\n",
+                           capture_output=True, text=True, timeout=900)
+    except subprocess.TimeoutExpired:
+        res.count("memcheck_timeouts")
+        return
+    res.count("memcheck_runs")
+    res.count("memcheck_requests", len(cmds))
+    if p.returncode == 99:
+        import re
+        first = re.search(r"==\d+== ([A-Z][^\n]*)\n==\d+==\s+at 0x[0-9A-F]+: (\w+)", p.stderr)
+        key = "c-memcheck:" + (first.group(1).split(" of size")[0].replace(" ", "-")[:40] + ":" + first.group(2) if first else "report")
+        res.violation(key, f"valgrind memcheck [{sess.config}]: {first.group(1) if first else p.stderr[-200:]}", {**wit, "report": p.stderr[-2500:]})
 
 
 def classify_build_error(log: str) -> str:
